@@ -157,6 +157,48 @@ def run_case(case):
                 geo = sum(beta ** k for k in range(T - t))
                 cmp(out[t], a_ * base[t] + b_ * geo, f"a={a_}, b={b_}, beta={beta}, period {t}", scale=max(a_, 1.0) + abs(b_) * geo / (1 + np.abs(base[t]).max()))
             add("law_affine")
+            # the same law through PARAMETERS on one pair of function objects: utility is written as
+            # ua * (u) + ub; the functions are called with (1, 0), the params mapping is edited in
+            # place to (a, b) and the same objects are called again. solve: V' = a V + b S_t;
+            # solve_and_simulate (same initial states and seed): value' = a value + b S_t row by row
+            if case["kind"] == "small" and case.get("index", 0) % 2 == 0:
+                from vlib import gen, simcheck
+
+                d3 = dict(desc)
+                d3["functions"] = [[n, (ar + ["ua", "ub"] if n == "utility" else ar), (f"ua * ({e}) + ub" if n == "utility" else e)] for n, ar, e in desc["functions"]]
+                d3["params"] = {**params, "utility": {**params.get("utility", {}), "ua": 1.0, "ub": 0.0}}
+                m3 = dsl.build_lcm_model(d3)
+                f_s, _ = pipeline.get_lcm_function(m3, "solve")
+                f_b, _ = pipeline.get_lcm_function(m3, "solve_and_simulate")
+                pm = dsl.lcm_params(d3["params"])
+                V1 = pipeline.to_np_list(f_s(pm))
+                r3 = Ref(d3)
+                init = gen.gen_initial_states(rng, r3, 12, out_of_range=0.0) if r3.states else None
+                df1 = f_b(pm, initial_states=pipeline.jnp_states(init), seed=5) if init is not None else None
+                pm["utility"]["ua"], pm["utility"]["ub"] = a_, b_  # in place, nothing else touched
+                V2 = pipeline.to_np_list(f_s(pm))
+                for t in range(T):
+                    geo = sum(beta ** k for k in range(T - t))
+                    cmp(V2[t], a_ * V1[t] + b_ * geo, f"params edited in place on the same solve function: a={a_}, b={b_}, period {t}", scale=max(a_, 1.0) + abs(b_) * geo / (1 + np.abs(V1[t]).max()))
+                if df1 is not None:
+                    df2 = f_b(pm, initial_states=pipeline.jnp_states(init), seed=5)
+                    per = np.asarray(df1["_period"].values)
+                    geo_r = np.array([sum(beta ** k for k in range(T - int(t))) for t in per])
+                    v1, v2 = np.asarray(df1["value"].values, dtype=float), np.asarray(df2["value"].values, dtype=float)
+                    okr = np.isfinite(v1) & np.isfinite(v2)
+                    same_path = np.ones(len(df1), bool)
+                    for c_ in df1.columns:
+                        if c_ not in ("value",):
+                            x_, y_ = np.asarray(df1[c_].values, dtype=float), np.asarray(df2[c_].values, dtype=float)
+                            same_path &= (x_ == y_) | (np.isnan(x_) & np.isnan(y_))
+                    # rows of agents whose whole path coincides (ties may legitimately resolve differently)
+                    N_ = len(df1) // T
+                    agent_ok = same_path.reshape(T, N_).all(axis=0)
+                    use = okr & np.tile(agent_ok, T)
+                    add("law_affine_simulated_rows", int(use.sum()))
+                    if use.any():
+                        cmp(v2[use], a_ * v1[use] + b_ * geo_r[use], f"params edited in place on the same solve_and_simulate function: a={a_}, b={b_}: value column", scale=max(a_, 1.0) + abs(b_) * geo_r.max() / (1 + np.abs(v1[use]).max()))
+                add("law_affine_in_place")
         elif law == "beta0":
             d0 = dict(desc)
             d0["params"] = {**params, "beta": 0.0}
